@@ -88,11 +88,31 @@ func MergeNodes(left, right Node, document *Document) (Node, error) {
 			}
 		}
 
-		r.AddNode(DeepCopy(child, document))
+		r.AddNode(copyChildFor(r, child, document))
 	next:
 	}
 
 	return r, nil
+}
+
+// copyChildFor returns a deep copy of child that can be added to parent.
+//
+// The husband, wife and children of a family cannot exist without their family,
+// so they are created for the family they are about to be added to.
+func copyChildFor(parent, child Node, document *Document) Node {
+	family, parentIsFamily := parent.(*FamilyNode)
+	if _, ok := child.(FamilyNoder); ok && parentIsFamily {
+		n := newNode(document, family, child.Tag(), child.Value(),
+			child.Pointer())
+
+		for _, grandChild := range child.Nodes() {
+			n.AddNode(DeepCopy(grandChild, document))
+		}
+
+		return n
+	}
+
+	return DeepCopy(child, document)
 }
 
 // MergeNodeSlices merges two slices based on the mergeFn.
